@@ -259,15 +259,34 @@ def _value_const_ints(val: Optional[ir.Value]) -> Optional[Tuple[int, ...]]:
 
 
 def _shapes_compatible(a: Optional[ir.Value], b: Optional[ir.Value]) -> bool:
-    ta, tb = _shape_tuple(a), _shape_tuple(b)
-    if ta is None or tb is None or len(ta) != len(tb):
+    """Return whether two values of equal element count provably have the same shape.
+
+    Concrete dims must match and symbolic dims must carry the same symbol. A
+    single dim that cannot be compared is still determined by the (equal)
+    element count; two or more are not, e.g. (A, B) reshaped to (B, A).
+    """
+    da_seq = _shape_dims_seq(a.shape) if a is not None else None
+    db_seq = _shape_dims_seq(b.shape) if b is not None else None
+    if da_seq is None or db_seq is None or len(da_seq) != len(db_seq):
         return False
-    for da, db in zip(ta, tb):
-        if da == -1 or db == -1:
+    unproven = 0
+    has_zero = False
+    for da, db in zip(da_seq, db_seq):
+        a_int = isinstance(da, (int, np.integer))
+        b_int = isinstance(db, (int, np.integer))
+        if a_int and b_int:
+            if int(da) != int(db):
+                return False
+            has_zero = has_zero or int(da) == 0
             continue
-        if da != db:
-            return False
-    return True
+        if not a_int and not b_int:
+            ta, tb = _dim_token(da), _dim_token(db)
+            if ta == tb and ta[1] is not None and ta[0] != "repr":
+                continue
+        unproven += 1
+    if unproven == 0:
+        return True
+    return unproven == 1 and not has_zero
 
 
 # ---------------- Attr access ----------------
